@@ -33,7 +33,12 @@ ASSUMPTIONS = ['oracle: sphere.sep separations; polygon interior = same side of 
                'healpy.ang2pix / boundaries (nest) are in the trusted base; the nested parent/child arithmetic is '
                'aegmon.refs.healmember (self-checked against healpy)',
                'a probe whose degrees and radians answers differ is judged only if its healpy cell is the same 1e-7 deg '
-               'around it']
+               'around it',
+               'margin note: an inclusive healpy query accepts a pixel when one of its 16 sub-pixel centres is within '
+               'radius + max_pixrad(4 nside), so the farthest point of an accepted pixel is at most '
+               '(2 max_pixrad(nside) + max_pixrad(4 nside)) / resol = 2.30..2.35 pixel sizes outside the shape: the '
+               'observed worst excess (about 2.0) is bounded by geometry, not by sampling, and stays below the 3 of '
+               'the statement; likewise area >= cap(r) is implied by coverage']
 MIN_REACH = {'regions:Region.add_circles': 1, 'regions:Region.add_poly': 1, 'regions:Region.sky_within': 1,
              'regions:Region.get_area': 1}
 MIN_COUNTERS = {'circle_probe_inside_judged': 2000, 'circle_probe_far_judged': 2000,
